@@ -2952,6 +2952,15 @@ class Norm:
             r = _map_strings(r, lambda x: _GENERIC_PARAM.sub(gsub, x) if "/#" in x else x)
             if failed:
                 return None
+
+            def conv(n):
+                # x.into() of the generic helper, now that its type parameter is an integer type: the lossless conversion `x as T`
+                if n[0] == "call" and n[1].startswith("Into::into<") and len(n[2]) == 1:
+                    m = re.fullmatch(r"Into::into<(\w+)->(\w+)>", n[1])
+                    if m and m.group(1) in _INT_TYPES and m.group(2) in _INT_TYPES:
+                        return ("cast", m.group(2), n[2][0])
+                return None
+            r = rewrite(r, conv)
         return r
 
     def _specialise_recursive(self, callee, arg_nodes, node):
@@ -3458,6 +3467,9 @@ class Norm:
                 return recv
             if name in ("From::from", "Into::into") and not args and _is_int_widening(e, e["recv"]):
                 return ("cast", peel_ty(e.get("ty", "")), recv)
+            if name == "Into::into" and not args and peel_ty(e.get("ty", "")) in _INT_TYPES and "/#" in str(strip(e["recv"]).get("ty", "")):
+                # inside a generic helper: which conversion this is is known once the helper's type parameter is (see _inline_call)
+                return ("call", "Into::into<%s->%s>" % (peel_ty(strip(e["recv"]).get("ty", "")), peel_ty(e.get("ty", ""))), [recv])
             name = {"Vec::is_empty": "slice::is_empty", "Vec::len": "slice::len", "Vec::first": "slice::first", "Vec::last": "slice::last",
                     "ExactSizeIterator::len": "slice::len", "ExactSizeIterator::is_empty": "slice::is_empty"}.get(name, name)
             if not args and name in ("slice::len", "slice::is_empty"):
